@@ -403,15 +403,15 @@ impl ParsedValue {
         let iter = value.match_indices('<').filter_map(|(i, _)| {
             value[i + 1..]
                 .split_once('>')
-                .map(|(ident, _)| (i, ident.trim()))
+                .map(|(ident, _)| (i, ident.len(), ident.trim()))
         });
-        for (i, ident) in iter {
+        for (i, raw_len, ident) in iter {
             if let Some(closing_tag) = ident.strip_prefix('/').map(str::trim_start) {
                 if closing_tag != key {
                     continue;
                 }
                 if depth == 0 {
-                    let end_i = i + ident.len() + 2;
+                    let end_i = i + raw_len + 2;
                     indices = Some((i, end_i))
                 } else {
                     depth -= 1;
